@@ -172,6 +172,27 @@ impl ConstantFolding {
         // truthy             && call() --> call()
         // non-null/undefined ?? call() --> non-null/undefined
         if let BinaryOp::Logical(op) = binary.op() {
+            // A logical expression never evaluates to a reference: `(true && o.m)()` calls `o.m`
+            // with an undefined `this`, `(false || eval)(s)` is an indirect eval, `delete (true && o.p)`
+            // deletes nothing and `typeof (true && undeclared)` throws. Unwrapping the operand would
+            // hand the reference to the enclosing call, `delete` or `typeof` (same reason the comma
+            // operator is kept above).
+            let keep_rhs = match op {
+                LogicalOp::And => lhs.to_boolean(),
+                LogicalOp::Or => !lhs.to_boolean(),
+                LogicalOp::Coalesce => lhs.is_null_or_undefined(),
+            };
+            if keep_rhs
+                && matches!(
+                    binary.rhs().flatten(),
+                    Expression::Identifier(_)
+                        | Expression::PropertyAccess(_)
+                        | Expression::Optional(_)
+                )
+            {
+                return PassAction::Keep;
+            }
+
             let expr = match op {
                 LogicalOp::And => {
                     if lhs.to_boolean() {
